@@ -13,12 +13,22 @@ package main
 //   srvInvokeDecDeferred         number of `defer atomic.AddInt32(&connSt.numInvoke, -1)` statements inside the
 //                                handler closure of tcpHandler.handleConn (1: the decrement also runs on the
 //                                early return for one-way requests / empty responses; 0: it can be skipped)
+//   appShutdownServerPassed      `go func(…){ … x.Shutdown(…) … }(…)` statements inside the range loops of
+//                                application.graceShutdown whose receiver x is a parameter of the function
+//                                literal or a variable declared inside the loop body (`s := s`, `if s, ok := …`)
+//   appShutdownServerCaptured    those whose receiver x is the range statement's own key / value variable,
+//                                captured by the closure (with `go < 1.22` in go.mod one variable per LOOP: every
+//                                goroutine may see the last element)
+//   appGoModMinor                the minor version of the `go 1.N` directive of go.mod
 //   srvRecvDrainChecks           comparisons `atomic.LoadInt32(&connSt.numInvoke) == 0` in recv (the
 //                                deferred drain-then-close)
 
 import (
 	"go/ast"
 	"go/token"
+	"os"
+	"path/filepath"
+	"strconv"
 	"strings"
 )
 
@@ -112,17 +122,113 @@ func (f *file) durMillis(fnName, calleeSuffix string, nth int) (int64, bool) {
 	return val, found
 }
 
+// shutdownCaptures classifies the goroutines started in the range loops of fn that call x.Shutdown(…).
+func (f *file) shutdownCaptures(fnName string) (passed, captured int64, ok bool) {
+	fd := f.funcDecl(fnName)
+	if fd == nil {
+		return 0, 0, false
+	}
+	ast.Inspect(fd, func(n ast.Node) bool {
+		rs, isRange := n.(*ast.RangeStmt)
+		if !isRange {
+			return true
+		}
+		loopVars := map[string]bool{}
+		for _, e := range []ast.Expr{rs.Key, rs.Value} {
+			if id, ok := e.(*ast.Ident); ok && id.Name != "_" {
+				loopVars[id.Name] = true
+			}
+		}
+		// variables (re)declared inside the loop body are fresh in every iteration
+		inner := map[string]bool{}
+		ast.Inspect(rs.Body, func(m ast.Node) bool {
+			if as, ok := m.(*ast.AssignStmt); ok && as.Tok == token.DEFINE {
+				for _, l := range as.Lhs {
+					if id, ok := l.(*ast.Ident); ok {
+						inner[id.Name] = true
+					}
+				}
+			}
+			return true
+		})
+		ast.Inspect(rs.Body, func(m ast.Node) bool {
+			gs, ok := m.(*ast.GoStmt)
+			if !ok {
+				return true
+			}
+			lit, ok := gs.Call.Fun.(*ast.FuncLit)
+			if !ok {
+				return true
+			}
+			params := map[string]bool{}
+			for _, fl := range lit.Type.Params.List {
+				for _, nm := range fl.Names {
+					params[nm.Name] = true
+				}
+			}
+			ast.Inspect(lit.Body, func(k ast.Node) bool {
+				call, ok := k.(*ast.CallExpr)
+				if !ok {
+					return true
+				}
+				sel, ok := call.Fun.(*ast.SelectorExpr)
+				if !ok || sel.Sel.Name != "Shutdown" {
+					return true
+				}
+				id, ok := sel.X.(*ast.Ident)
+				if !ok {
+					return true
+				}
+				if loopVars[id.Name] && !params[id.Name] && !inner[id.Name] {
+					captured++
+				} else {
+					passed++
+				}
+				return true
+			})
+			return false
+		})
+		return true
+	})
+	return passed, captured, true
+}
+
 func init() {
 	const th = "tars/transport/tcphandler.go"
 	const ts = "tars/transport/tarsserver.go"
 	mirrored[th] = append(mirrored[th], "tcpHandler.Handle", "tcpHandler.recv", "tcpHandler.handleConn",
 		"tcpHandler.CloseIdles", "tcpHandler.sendCloseMsg", "tcpHandler.OnShutdown")
 	mirrored[ts] = append(mirrored[ts], "TarsServer.Shutdown")
+	mirrored["tars/application.go"] = append(mirrored["tars/application.go"], "application.graceShutdown")
 	extras = append(extras, func(add func(string, int64, bool)) {
 		h := parse(th)
 		s := parse(ts)
 		if h == nil || s == nil {
 			return
+		}
+		if app := parse("tars/application.go"); app != nil {
+			p, c, ok := app.shutdownCaptures("application.graceShutdown")
+			if ok && p+c == 0 {
+				anchorLost("tars/application.go: graceShutdown: no `go func(…){ … .Shutdown(…) … }` inside a range loop")
+				ok = false
+			}
+			add("appShutdownServerPassed", p, ok)
+			add("appShutdownServerCaptured", c, ok)
+		}
+		if b, err := os.ReadFile(filepath.Join(*repo, "go.mod")); err == nil {
+			minor := int64(-1)
+			for _, line := range strings.Split(string(b), "\n") {
+				fs := strings.Fields(line)
+				if len(fs) == 2 && fs[0] == "go" && strings.HasPrefix(fs[1], "1.") {
+					if v, err := strconv.Atoi(strings.SplitN(fs[1][2:], ".", 2)[0]); err == nil {
+						minor = int64(v)
+					}
+				}
+			}
+			if minor < 0 {
+				anchorLost("go.mod: `go 1.N` directive not found")
+			}
+			add("appGoModMinor", minor, minor >= 0)
 		}
 		v, ok := h.countCalls("tcpHandler.Handle", func(c string) bool { return strings.HasSuffix(c, ".Wait") })
 		add("srvHandleWaitsBeforeRelease", v, ok)
